@@ -143,6 +143,10 @@ def gen_scenario(prng, tier, index, focus):
             sc["abort_line"] = prng.choice((prng.randrange(0, 60), prng.randrange(0, 2000), prng.randrange(0, 40000)))
     if prng.random() < 0.3:
         sc["reuse_object"] = True       # one rewiring object for the whole history (limit raised through the setter)
+    if prng.random() < 0.3:
+        sc["node_order"] = [prng.choice(("reversed", "shuffled", "edges_first")), prng.randrange(2 ** 31)]
+    if prng.random() < 0.5:
+        sc["chain"] = prng.choice((1, 1, 2, 3))     # accepted swaps of a second stage run on the first stage's result
     return sc
 
 
@@ -174,6 +178,10 @@ def run_history(sc, ctx, prefix, on_state, on_abort=None):
     except Exception as e:
         from .simrandom import HarnessError
         raise HarnessError(f"scenario construction failed: {e!r}")
+    if sc.get("node_order"):
+        # vertex insertion order differs from the labels (edge-list built / vertices added late); attributes kept
+        net.G = netsim.reordered(net.G, sc["node_order"][0], sc["node_order"][1])
+        ctx.probe("vertex_insertion_order_differs_from_labels")
     G0 = net.G
     if G0.number_of_edges() < 2:
         # no swap history exists on fewer than two edges (rewire() cannot even draw): outside every rewiring property
@@ -222,6 +230,33 @@ def run_history(sc, ctx, prefix, on_state, on_abort=None):
         prev = G
         if cont is False:
             break
+    # STAGED rewiring: the graph one rewire() returned is wrapped in a Network and GIVEN to a second rewiring.  Only when the
+    # first result is itself a clean motif network, i.e. all motifs are single edges (the recorded motif-id finding
+    # scrambles multi-edge motifs); the second call's given network must come back untouched - attributes included.
+    if (sc.get("chain") and info["states"] > 0 and cont is not False and not info["inconclusive"]
+            and all(t["size"] == 2 and "chord_topo" not in t and not t.get("part_only") for t in sc["spec"]["topos"])):
+        from gcmpy.network.network import Network
+        net1 = Network()
+        net1.G = prev
+        before1 = netsim.snapshot(prev)
+        src2 = ctx.source("rewire-stage2", sc.get("policy"))
+        try:
+            mc2 = MarkovChainMonteCarloRewiring(params_for(sc, net1, ejks, sc["chain"] - 1))
+        except Exception as e:
+            ctx.violate(f"{P}.raised", f"constructing the rewiring for a second stage raised {describe_exc(e)}")
+            return info
+        st, G2 = ctx.call(src2, mc2.rewire, budget=budget_for(sc["chain"]), label="rewire[stage 2]")
+        ctx.check("C11.input")
+        ctx.probe("staged_rewiring_second_stage")
+        if netsim.snapshot(prev) != before1:
+            ctx.violate("C11.input", f"the network GIVEN to a second rewiring stage (the result of the first, wrapped in a Network) was "
+                                     f"modified by rewire() (status={st})")
+            return info
+        if st == "ok" and isinstance(G2, nx.Graph):
+            on_state(info["states"], prev, G2, None, dict(info, G0=prev, net=net1, before=before1))
+        elif st not in ("ok", "budget"):
+            ctx.violate(f"{P}.raised", f"second rewiring stage: {st} {describe_exc(G2) if st == 'raised' else ''}")
+            return info
     # abort at a scheduler-chosen draw of the longest run, then the input must be untouched
     if sc["variant"] == "faults" and info["max_decisions"] > 0:
         at = int(sc.get("abort_frac", 0.5) * info["max_decisions"])
